@@ -35,6 +35,9 @@ func (e Engine) Execute(r *core.Run) (v *core.Violation) {
 	switch r.Property {
 	case "C13":
 		fn = runC13
+		if l2 {
+			fn2 = runC13L2
+		}
 	case "C15":
 		fn = runC15
 		if l2 {
@@ -85,13 +88,15 @@ func (e Engine) Execute(r *core.Run) (v *core.Violation) {
 func (Engine) Describe(property string) core.Description {
 	d := describe(property)
 	switch property {
-	case "C14", "C15":
+	case "C13", "C14", "C15":
 		if layer2Available() {
 			d.Rule += "  LAYER 2 (every second run): the provider's actor files and go-lifecycle are instrumented by yieldgen so that every go statement, channel operation and select is a scheduling point; " +
 				"the seeded scheduler resumes exactly one parked goroutine (or completes one parked call, or injects one event through a task) per decision, ready select cases are polled in an order drawn from the choice stream."
 			d.Extra = map[string]interface{}{"layer2": "active"}
 			if property == "C15" {
 				d.RequiredProbes = append(d.RequiredProbes, "probe:l2-histories", "probe:l2-history-with-clone")
+			} else if property == "C13" {
+				d.RequiredProbes = append(d.RequiredProbes, "probe:l2-runs-completed", "probe:l2-event-published-with-more-queued", "probe:l2-chain-close-while-call-in-flight")
 			} else {
 				d.RequiredProbes = append(d.RequiredProbes, "probe:l2-runs-completed", "probe:l2-close-before-first-deploy-started", "probe:l2-close-during-deploy", "probe:l2-update-during-deploy")
 			}
